@@ -1,6 +1,7 @@
 package vc
 
 import (
+	"os"
 	"fmt"
 	"go/ast"
 	"go/token"
@@ -40,7 +41,7 @@ func (p *Program) newExec(fi *FuncInfo) *Exec {
 		cntDefs: map[string]string{}, closures: map[types.Object]*ast.FuncLit{}, loopsUsed: map[int]bool{}, UsedContracts: map[string]bool{}, loopOrdOf: map[ast.Stmt]int{}}
 	if fi.C != nil {
 		e.mode = fi.C.IntMode
-		e.safety = fi.C.Safety
+		e.safety = fi.C.Safety || os.Getenv("GOVC_FORCE_SAFETY") != "" // the latter: exploratory no-panic sweep (govc dev only)
 	}
 	return e
 }
